@@ -34,7 +34,9 @@ func (p *DecisionMakingParams) AllAlternatives() []AlternativeWithCriteria {
 	if toConsider == nil {
 		toConsider = make([]AlternativeWithCriteria, 0)
 	}
-	return append(toConsider, notConsider...)
+	all := make([]AlternativeWithCriteria, 0, len(toConsider)+len(notConsider))
+	all = append(all, toConsider...)
+	return append(all, notConsider...)
 }
 
 type RawMethodParameters = map[string]interface{}
